@@ -153,6 +153,24 @@ def o_check(case):
             _bad("coinbase:counted-unsigned", "coinbase transaction has bad_solution_count() == %d" % n)
         if _snapshot(tx) != before:
             _bad("bad_solution_count:modifies-tx", "transaction changed by bad_solution_count()")
+        # the exemption must not depend on what is recorded as the (meaningless) spent output of the coinbase input,
+        # nor on the flags: every way a caller may have filled tx.unspents for it
+        script_len = len(m["ins"][0]["script"])
+        variants = [("no unspents", []), ("unspents=[None]", [None]),
+                    ("a recorded TxOut", [tx.TxOut(50 * 10**8, b"\x51")]),
+                    ("a recorded TxOut with an unsatisfiable script", [tx.TxOut(0, b"\x6a")])]
+        name, uns = variants[(script_len + len(m["outs"])) % len(variants)]
+        saved = tx.unspents
+        tx.unspents = uns
+        try:
+            for kw in ({}, {"flags": 0}):
+                n2 = tx.bad_solution_count(**kw)
+                if n2 != 0:
+                    _bad("coinbase:counted-unsigned", "coinbase transaction (script %s) with %s has bad_solution_count(%s) == %d" % (
+                        m["ins"][0]["script"][:40] if isinstance(m["ins"][0]["script"], str) else script_len, name, kw, n2))
+        finally:
+            tx.unspents = saved
+        labels.append("coinbase-unspents:" + name.split()[0])
     for r in sorted(set(ra) | set(rb)):
         labels.append("why=" + r)
     if info["near_null"]:
